@@ -198,7 +198,7 @@ func ruleDistributorLoop(w *World, r *Run, ruleCtx, ruleStop string) {
 		calls0 := false
 		for _, b := range fn.Blocks {
 			for _, in := range b.Instrs {
-				if c, ok := in.(ssa.CallInstruction); ok && c.Common().StaticCallee() == dist {
+				if c, ok := in.(ssa.CallInstruction); ok && (c.Common().StaticCallee() == dist || ssaCallName(c.Common()) == fnDistOnce) {
 					calls0 = true
 				}
 			}
@@ -224,17 +224,39 @@ func ruleDistributorLoop(w *World, r *Run, ruleCtx, ruleStop string) {
 			}
 			return false
 		}
-		for loopFn.Parent() != nil && !waits(loopFn) {
-			loopFn = loopFn.Parent()
+		for hop := 0; hop < 4 && !waits(loopFn); hop++ {
+			if loopFn.Parent() != nil {
+				loopFn = loopFn.Parent()
+				continue
+			}
+			// a named helper (distributeAndLog): its single production caller
+			var caller *ssa.Function
+			nc := 0
+			for _, cf := range w.prodFns() {
+				for _, cb := range cf.Blocks {
+					for _, cin := range cb.Instrs {
+						if cc, ok := cin.(ssa.CallInstruction); ok && cc.Common().StaticCallee() == loopFn && outermost(cf) != loopFn {
+							if caller != cf {
+								nc++
+							}
+							caller = cf
+						}
+					}
+				}
+			}
+			if nc != 1 {
+				break
+			}
+			loopFn = caller
 		}
 		// --- the context of each round
 		for _, b := range fn.Blocks {
 			for _, in := range b.Instrs {
 				c, ok := in.(ssa.CallInstruction)
-				if !ok || c.Common().StaticCallee() != dist || len(c.Common().Args) < 2 {
+				if !ok || (c.Common().StaticCallee() != dist && ssaCallName(c.Common()) != fnDistOnce) || len(c.Common().Args) < 1 {
 					continue
 				}
-				ctxArg := c.Common().Args[1]
+				ctxArg := c.Common().Args[len(c.Common().Args)-1] // DistributeOnce(ctx): the only argument besides the receiver
 				bounded := false
 				var walk func(v ssa.Value, depth int)
 				walk = func(v ssa.Value, depth int) {
